@@ -545,6 +545,12 @@ def _run_fit(case, obs):
         V = rng.choice([120, 208, 240, 277])
         period = rng.choice([1, 5, 15, 60])
         stay = rng.choice([1, 2, 6, 12, 24, 64, 144, rng.randint(1, 300)])
+        if rng.random() < 0.08:
+            # magnitudes outside everyday use but inside the signature: day- and week-long periods, medium- and high-voltage supplies
+            V = rng.choice([480, 1000, 11000, 1e6, 208, 240])
+            period = rng.choice([1440, 10080, 5, 60])
+            stay = rng.choice([1, 7, 40, 52, 288])
+            obs.ev("fits_at_unusual_magnitudes")
         maxE = 32 * V / 1000.0 * stay * period / 60.0
         frac = rng.choice([0.001, 0.01, 0.05, 0.1, 0.2, 0.3, 0.5, 0.8, 0.95, 1.0, rng.random()])
         energy = min(maxE * frac, 100.0)
